@@ -257,6 +257,7 @@ runtime:
 `
 
 type sim struct {
+	edits  int
 	scheme *runtime.Scheme
 	c      client.Client
 	lc     *lagClient
@@ -681,6 +682,13 @@ func (s *sim) editMax(ns, name string, n int32) bool {
 		return false
 	}
 	e.Spec.MaxTrialCount = &n
+	// the same `kubectl apply` also (re)labels the Experiment: labels are free-form metadata and must not matter to the
+	// controllers, which select an Experiment's Trials by the reserved label only
+	s.edits++
+	if e.Labels == nil {
+		e.Labels = map[string]string{}
+	}
+	e.Labels["team"] = fmt.Sprintf("rev-%d", s.edits)
 	return s.c.Update(context.TODO(), e) == nil
 }
 
